@@ -172,6 +172,8 @@ def helper_sweep(kinds):
                 cmds.append((61, [i, path]))
                 tok = rng.choice([b"", b"#", b"1#", b"#1", b"12#ab#c", b"1#a b", b"x#1", b"3#-_Zz09", b"007#0", b"5#~"])
                 cmds.append((62, [tok]))
+                cmds.append((66, [rng.choice([0, 1, 5, 4 ** 31, 4 ** 32 - 1, 4 ** 33 + 7, rng.randrange(4 ** 45), 2 ** 64 - 1, 2 ** 64]),
+                                  rng.choice([1, 2, 3])]))
             elif k == "rule":
                 l = G.gen_lru(rng, weird=0.3)
                 if rng.random() < 0.3:
@@ -248,6 +250,30 @@ RULE = ("random request histories from one PRNG (seed, index): %d write requests
         "replayed on the extracted model and specification; a case is non-trivial when it has >= 5 write requests, distinct by the "
         "hash of its write requests")
 
+def deep_tree(s, rng):
+    """paths longer than 32 moves: a degenerate right chain of sibling pages, and a URL with many stems"""
+    if rng.random() > 0.12:
+        return
+    host = rng.choice([b"deep", b"sorted"])
+    base = b"s:http|h:com|h:" + host + b"|"
+    n = rng.choice([34, 36, 40])
+    if rng.random() < 0.5:
+        pages = [base + b"p:page%02d|" % i for i in range(n)]                 # ascending: a right chain
+    else:
+        pages = [base + b"".join(b"p:d%d|" % j for j in range(i + 1)) for i in range(n)]   # a child chain
+    for i in range(0, n, 8):
+        s.do(3, [pages[i:i + 8], rng.randint(0, 1)])
+    if rng.random() < 0.5:
+        s.do(4, [[[pages[k], pages[(k * 7 + 1) % n]] for k in range(0, n, 3)]])
+    wes = s.webentities()
+    for w, ps in wes.items():
+        if any(p.startswith(base) or base.startswith(p) for p in ps):
+            for k in (rng.choice([1, 2, 3]), rng.choice([16, 31, 32, 33])):
+                s.paginate_pages(w, ps, k, 0, True)
+                s.paginate_links(w, ps, 1, 1, k, True)
+            break
+
+
 PROPS = {}
 
 
@@ -271,8 +297,9 @@ reg("C06", ["C06_create", "C06_potential", "C06_rule_install"], K.FACET_OPS["C06
 reg("C07", ["C07_net"], K.FACET_OPS["C07"], depth=2, nq=320, mixkw={"add_links": 30, "batch": 20, "create_we": 14})
 reg("C08", ["C08_pagelinks"], K.FACET_OPS["C08"], mixkw={"add_links": 30, "batch": 20, "create_we": 14})
 reg("C09", ["C09_token_roundtrip", "C09_sorted_pages", "C09_chunks", "C09_stable_chain"], K.FACET_OPS["C09"],
-    mixkw={"add_page": 50, "add_pages": 20, "create_we": 14}, sweep=helper_sweep(["token"]))
-reg("C10", ["C10_chunks"], K.FACET_OPS["C10"], mixkw={"add_links": 35, "batch": 20, "create_we": 14})
+    mixkw={"add_page": 50, "add_pages": 20, "create_we": 14}, sweep=helper_sweep(["token"]), extra=[deep_tree])
+reg("C10", ["C10_chunks", "C10_same_links"], K.FACET_OPS["C10"], mixkw={"add_links": 35, "batch": 20, "create_we": 14},
+    extra=[deep_tree])
 reg("C12", ["C12_fresh"], set(), mixkw={"create_we": 16, "delete_we": 10, "add_rule": 10, "reopen": 10})
 reg("C13", ["C13_parents", "C13_children"], K.FACET_OPS["C13"], mixkw={"create_we": 18, "add_prefix": 12, "move_prefix": 8, "add_rule": 10})
 reg("C19", ["C19_trie_blocks", "C19_count_links", "C19_readd_no_growth"], K.FACET_OPS["C19"], sweep=helper_sweep(["chunks"]), weird=0.45,
@@ -947,8 +974,10 @@ def _c16_worker(job):
                         seen.add(src)
                         data.append([src, [rng.choice(pool) for _ in range(rng.choice([0, 1, 2, 3]))]])
                     specs.append([0, data])
-                elif r < 0.8:
+                elif r < 0.78:
                     specs.append([1, G.pick_prefix(rng, s.tr), rng.choice([0, 1, 2, 3])])
+                elif r < 0.88:
+                    specs.append([3, rng.randint(0, 1), rng.randint(0, 1)])
                 else:
                     wes = s.webentities()
                     if wes:
